@@ -266,9 +266,27 @@ pub fn idct(path: &str) {
                 })
                 .collect::<Vec<i32>>()
         });
+        // the same block at the edge of a smaller plane: the visible samples must be what they are in the full block
+        let crop = catch(|| {
+            let mut full = vec![128u8; 64];
+            idct_channel(&[blk], &mut full, 1, 8);
+            for &(w, h) in &[(8usize, 5usize), (5, 8), (3, 6), (8, 1), (1, 8), (7, 7)] {
+                let mut out = vec![128u8; w * h];
+                idct_channel(&[blk], &mut out, 1, w);
+                for y in 0..h {
+                    for x in 0..w {
+                        if out[x + y * w] != full[x + y * 8] {
+                            return format!(" crop:{}:{}:{}:{}:{}:{}", w, h, x, y, out[x + y * w], full[x + y * 8]);
+                        }
+                    }
+                }
+            }
+            String::new()
+        })
+        .unwrap_or_else(|_| " crop:panic".to_string());
         match r {
-            Ok(v) => writeln!(o, "{} {}", idx, v.iter().map(|x| x.to_string()).collect::<Vec<_>>().join(" ")).unwrap(),
-            Err(()) => writeln!(o, "{} panic", idx).unwrap(),
+            Ok(v) => writeln!(o, "{} {}{}", idx, v.iter().map(|x| x.to_string()).collect::<Vec<_>>().join(" "), crop).unwrap(),
+            Err(()) => writeln!(o, "{} panic{}", idx, crop).unwrap(),
         }
     }
 }
